@@ -357,6 +357,19 @@ class Interp:
                 x = dom.invalidate(x, assigned_targets(st), st)
                 x = dom.note_init(x, st)
                 x = dom.on_assign(x, st) if isinstance(st, (ast.Assign, ast.AugAssign, ast.AnnAssign)) else x
+                # `flag = <call-free test>`: the flag's truth is the test's truth at this point
+                if (dom.track_facts and isinstance(st, ast.Assign) and len(st.targets) == 1 and isinstance(st.targets[0], ast.Name)
+                        and (isinstance(st.value, (ast.Compare, ast.BoolOp))
+                             or (isinstance(st.value, ast.UnaryOp) and isinstance(st.value.op, ast.Not)))
+                        and not calls_in_order(st.value) and st.targets[0].id not in names_in(st.value)
+                        and not dom.volatile(st.targets[0].id)):
+                    nm = st.targets[0].id
+                    for r in dom.decide(x, st.value, ctx):
+                        if r[0] == RAISE:
+                            outs.add(RAISE, r[1], r[2])
+                        else:
+                            outs.add(FALL, r[1]._replace(facts=r[1].facts | {((nm, (nm,), ()), bool(r[0]))}))
+                    continue
                 outs.add(FALL, x)
         elif isinstance(st, ast.Return):
             s = dom.on_stmt(s, st)
